@@ -63,6 +63,9 @@ structure St where
   fnpc : Nat       -- control-function goroutine of the current start/stop: 0 none, 1 ctrl set & fn running,
                    --          2 fn returned, 3 deferred UnSet done (result is sent after that)
   tmo : Nat
+  swTop0 : Nat     -- service workers whose function returned while the stop flag was clear, at the head of their
+                   --   restart loop (they may still read `IsStopping() = false` and run the function again)
+  swTop1 : Nat     -- … whose function returned while the stop flag was set (their `IsStopping()` read is true)
 deriving DecidableEq, Repr
 
 /-- A registered, prepared module (`initNewModule`: `stopCompleted = true`, `stopComplete = nil`). -/
@@ -70,7 +73,7 @@ def init : St :=
   { status := statusOffline, flag := 0, ctrl := 0, ctx := 0, completed := 1, closed := 0, dbl := 0,
     aW := 0, bW := 0, aT := 0, bT := 0, aM := 0, bM := 0,
     k0 := 0, kf := 0, k1 := 0, k2 := 0, k3 := 0, k4 := 0, k5 := 0, k6 := 0, k7 := 0, kd := 0, lk := 0,
-    spc := 0, fnpc := 0, tmo := 0 }
+    spc := 0, fnpc := 0, tmo := 0, swTop0 := 0, swTop1 := 0 }
 
 inductive Act
   | startBegin                 -- start(): status Starting, cancel old ctx, new ctx, stopFlag.UnSet   (under m.Lock)
@@ -91,6 +94,9 @@ inductive Act
   | cFast (ok : Bool) | cLock
   | cFlag (ok : Bool) | cCtrl (ok : Bool) | cW (ok : Bool) | cT (ok : Bool) | cM (ok : Bool)
   | cCas (ok : Bool) | cClose | cUnlock
+  | swReturn                   -- runServiceWorker: the worker function returned (any result), back in the restart loop
+  | swRerun                    -- … `IsStopping()` read false, the function is run again (ErrRestartNow / back-off elapsed)
+  | swExit (late : Bool)       -- … the loop is left (nil / context.Canceled / `IsStopping()` / `Ctx.Done()`), `dec` follows
 deriving DecidableEq, Repr
 
 /-- the Go counters -/
@@ -165,6 +171,10 @@ def step (s : St) : Act → Option St
       else some { s with k7 := s.k7 - 1, kd := s.kd + 1, closed := 1 }
     else none
   | .cUnlock => if 0 < s.kd then some { s with kd := s.kd - 1, lk := 0 } else none
+  | .swReturn => if s.flag = 1 then some { s with swTop1 := s.swTop1 + 1 } else some { s with swTop0 := s.swTop0 + 1 }
+  | .swRerun => if 0 < s.swTop0 then some { s with swTop0 := s.swTop0 - 1 } else none
+  | .swExit false => if 0 < s.swTop0 then some { s with swTop0 := s.swTop0 - 1 } else none
+  | .swExit true => if 0 < s.swTop1 then some { s with swTop1 := s.swTop1 - 1 } else none
 
 /-- run a list of actions; `none` = some action was not enabled (the acceptor's `reject`). -/
 def run (s : St) : List Act → Option St
